@@ -254,7 +254,7 @@ def run(res):
     bins = core.build(allv)
     rng = core.rng_for(res.seed, "c13")
     items = []
-    progs = tw.corpus_programs(res.seed, 1200 if thorough else 80) + tw.generated_programs(res.seed, 10000 if thorough else 1000)
+    progs = tw.corpus_programs(res.seed, 1200 if thorough else 150) + tw.generated_programs(res.seed, 10000 if thorough else 3000)
     for tag, text in progs:
         items.append((tag, text, variants))
         if len(text) < 40000:
